@@ -316,13 +316,47 @@ def dm16(ctx, rule="R-DM16-PREFIX", rule_thr="R-DM16-THRESH"):
         for r in runs(ctx, f, unroll=1):
             sends = [e for _, e in r.effects() if e.kind == "call" and e.value[1] == ("attr", field("_ca"), "send_pgn")]
             it = [rec for rec in r.recs if rec.ev.kind == "for" and rec.ev.pol == "iter"]
-            if not sends or len(it) != 1:
+            if not sends or len(it) > 1:
                 continue
             data = sends[0].value[2][4]
-            parts = data[1] if data[0] == "cat" else (data,)
+
+            def flat(x):
+                if x[0] == "cat":
+                    return [z for y in x[1] for z in flat(y)]
+                if x[0] == "bin" and x[1] == "+":
+                    return flat(x[2]) + flat(x[3])
+                return [x]
+            parts = tuple(flat(data))
             head = parts[0]
             inst = "%s._send_dm16: first byte = n for n <= 7 else 0xFF, then the n bytes in order" % cls
             pr = []
+            if not it and any(rec.ev.kind == "for" for rec in r.recs):
+                continue    # the append loop exists but is not entered on this path (n == 0)
+            if not it:
+                # no append loop on this path: the bytes are spliced in as a whole ([first, *src] / [first] + list(src) / a comprehension)
+                if head[0] != "list" or len(head[1]) != 1 or len(parts) < 2:
+                    continue
+                rest = parts[1]
+                whole = rest == src or (rest[0] == "call" and rest[1][0] == "glob" and rest[1][1] in ("list", "bytes", "bytearray") and rest[2] == (src,)) or \
+                    (rest[0] == "sub" and rest[1] == src and rest[2][0] == "slice" and rest[2][1] in (None, ("c", 0)) and rest[2][2] in (None, n) and rest[2][3] is None) or \
+                    (rest[0] == "comp" and len(rest[2]) == 1 and not rest[2][0][1] and (
+                        (rest[2][0][0] == ("call", ("glob", "range"), (n,), ()) and rest[1] == ("sub", src, ("iter", rest[2][0][0]))) or
+                        (rest[2][0][0] == src and rest[1] == ("iter", src))))
+                first = head[1][0]
+                want_first = ("ife", mk_cmp("<", ("c", LIM), n), ("c", 255), n)
+                alt = ("ife", mk_not(mk_cmp("<", ("c", LIM), n)), n, ("c", 255))
+                if first not in (want_first, alt):
+                    pr.append("first byte is %s" % pretty(first))
+                if not whole:
+                    ctx.unknown(rule, "%s: payload %s not recognised" % (f.qual, pretty(data)[:80]))
+                    ok = True
+                    break
+                if pr:
+                    ctx.violated(rule, f, inst, "; ".join(pr), sends[0].node)
+                else:
+                    ctx.holds(rule, inst)
+                ok = True
+                break
             if head[0] != "list" or len(head[1]) < 2:
                 ctx.unknown(rule, "%s: payload %s not recognised" % (f.qual, pretty(data)[:80]))
                 break
